@@ -389,14 +389,14 @@ def run(chk):
     prog = chk.load()
     PROG[0] = prog
     cg = CallGraph(prog)
-    rule_paired_borders(chk, prog)
-    rule_movers(chk, prog)
-    rule_writers_reach(chk, prog, cg)
-    rule_gap_shape(chk, prog)
-    rule_order(chk, prog)
-    rule_neighbour_twins(chk, prog)
+    chk.guard(rule_paired_borders, chk, prog)
+    chk.guard(rule_movers, chk, prog)
+    chk.guard(rule_writers_reach, chk, prog, cg)
+    chk.guard(rule_gap_shape, chk, prog)
+    chk.guard(rule_order, chk, prog)
+    chk.guard(rule_neighbour_twins, chk, prog)
     from .c01 import rule_solve_uses_satisfy
-    rule_solve_uses_satisfy(chk, prog)       # removeoverlaps publishes what Solver::solve leaves in finalPosition
+    chk.guard(rule_solve_uses_satisfy, chk, prog)       # removeoverlaps publishes what Solver::solve leaves in finalPosition
     from ..rules import mirrors
     r = chk.rule("MIRROR", "the X and Y twins of vpsc::Rectangle (getters, overlapX/Y, moveCentreX/Y, set_width/height, borders, "
                  "min/max accessors) and of the scan-line Node stay exact mirror images (tables/mirrors.json)", floor=10)
